@@ -34,6 +34,8 @@ checks = {
          "Real bidengine service + order monitors + real bus; every outside call parks until the seeded scheduler completes or fails it, chain events are delivered/lost at every pipeline point, clock jumps fire the bid timeout, the provider crashes and restarts (catch-up with and without an existing bid). Oracle over the call log: <=1 create-bid per order and incarnation, price <= max, reservation completed before the bid, and after handling ended without LeaseWon every granted reservation is followed by Unreserve and every placed bid by a close-bid. Layer 1 (one stimulus per quiescent point)."),
  "C15": ("provsim", "seeded operation histories on the real bus in a synctest bubble; operation-by-operation conformance with a per-subscriber queue model, every operation must return by the next quiescent point",
          "publish/subscribe/clone/read/close histories on the real pubsub bus (real go-lifecycle), compared with a queue model: every subscriber gets every event published after its subscription exactly once in order, a clone inherits exactly the undelivered events, stalled readers and closes never block publishers or others. Layer 1: histories are sequential at the API (each operation completes before the next starts); goroutine-level interleavings inside the bus are not enumerated."),
+ "C12": ("provsim", "seeded reserve/release/status/deployment-event/inventory-refresh histories on the real inventory service; exact bin-packing search as grant oracle, per-reservation status model",
+         "Real cluster service + inventoryService with per-run commit levels and port quantity; Inventory() answers (1-4 nodes, drawn capacities, errors, slow) are completed by the scheduler. Oracle: grant => an exact backtracking search places all not-yet-deployed reservations plus the new one (scaled by the commit levels in their weakest reading) on the capacity last reported, and random-port endpoints fit the free ports; status lists exactly one entry per outstanding reservation, with the same amounts every time; release removes exactly one."),
  "C14": ("provsim", "seeded actor-level scheduling of the real cluster service and deployment managers against parked Deploy/Teardown/Inventory/LeaseStatus calls; interval-log oracle + bounded-progress drain",
          "Real cluster.NewService (service loop, inventory, hostname service, managers, monitors, withdrawal) over a real bus; manifest updates, lease-closed, completion ok/error of every parked cluster call, clock jumps. Oracle over the [start,end) log per lease: no two cluster operations overlap, no deploy starts after the lease-closed signal was delivered to a managed lease, teardown after the last deploy and then reservation and hostnames released, otherwise the last deploy uses the latest manifest - within a bounded fair drain. Layer 1; the hostname-reservation race (DESIGN.md S7) needs goroutine-level scheduling."),
  "C20": ("provsim", "seeded actor-level scheduling of the real manifest service against a parked deployment fetch with lease/version/close events and concurrent submissions; reply/announcement oracle + bounded drain",
@@ -50,7 +52,6 @@ not_applicable = [
 # properties whose engines are not built yet are listed here with the reason until their check exists
 pending = {
  "C09": "applicable (gwsim engine, DESIGN.md section 4) - check not built yet in this revision",
- "C12": "applicable (provsim) - check not built yet in this revision",
 }
 
 def main():
